@@ -186,10 +186,17 @@ func VfC17_Drain() {
 	attempts := 0
 	oldListen := defaultListenFunc
 	defer func() { defaultListenFunc = oldListen }()
+	// the drain may also arrive while a bind call is in progress (the call that will succeed)
+	duringBind := nd.Param("duringbind", 0) == 1
+	bindEntered, bindRelease := make(chan struct{}, 1), make(chan struct{})
 	defaultListenFunc = func(proto, addr string) (net.Listener, error) {
 		attempts++
 		if attempts <= bindFails {
 			return nil, errors.New("vf: address already in use")
+		}
+		if duringBind && attempts == bindFails+1 {
+			bindEntered <- struct{}{}
+			<-bindRelease
 		}
 		return lis, nil
 	}
@@ -200,7 +207,7 @@ func VfC17_Drain() {
 		conn.Read(buf)
 	})
 	var early *vfCliConn
-	if bindFails == 0 && nd.Bool("a-connection-is-being-served") {
+	if !duringBind && bindFails == 0 && nd.Bool("a-connection-is-being-served") {
 		early = &vfCliConn{closed: make(chan struct{})}
 		lis.queue <- early
 	}
@@ -209,7 +216,22 @@ func VfC17_Drain() {
 	nd.PanicLabel("drain")
 	nd.Quiesce() // serving, or waiting for the next bind attempt (the timer may have fired already)
 	before := handled
-	l.Drain()
+	if duringBind {
+		select {
+		case <-bindEntered:
+		default:
+			nd.Assume(false) // only the schedules in which the successful bind call has begun
+		}
+		drained := false
+		go func() { l.Drain(); drained = true }()
+		nd.Quiesce()
+		close(bindRelease) // the bind call returns the bound socket
+		nd.Quiesce()
+		nd.Assert(drained, "Drain returns")
+		nd.Cover("drained-during-bind")
+	} else {
+		l.Drain()
+	}
 	late := &vfCliConn{closed: make(chan struct{})}
 	if !lis.isClosed {
 		lis.queue <- late // a client connects after the drain (a closed socket refuses it)
